@@ -135,6 +135,7 @@ func genC09(seed uint64, run int, tier string) Scenario {
 		sc.Server.Junk = pick(r, "Warning: Permanently added 'host' (ED25519) to the list of known hosts.\n", "*** authorized use only ***\n\n", "\n\n")
 	}
 	sc.Ops = []NCOp{{Kind: "getconfig", A: "running"}, {Kind: "close"}}
+	sc.CutEnum = sc.WantVersion != "" && pickCutEnum(run, 12)
 	defer sc.fitTimeouts()
 	if sc.WantVersion != "" {
 		sc.Server.Replies = []peer.NCReply{{Mode: "now", Payload: `<rpc-reply xmlns="urn:ietf:params:xml:ns:netconf:base:1.0" message-id="{MID}"><data><x>1</x></data></rpc-reply>`}}
@@ -151,6 +152,7 @@ func runC09(env *Env, s Scenario) {
 	}
 	out := env.K.Run(done, sc.Deadline(), sc.readDelay()*20+time.Millisecond)
 	env.Finish(out)
+	sc.noteCutBase(env, nr, 0)
 	env.Context = nr.Summary
 	env.Res.Shape = fmt.Sprintf("%s %s echo=%v junk=%d seg=%s lat=%s rs=%d", sc.Class, sc.State, sc.Server.Echo, len(sc.Server.Junk), sc.Net.SegMode, sc.Net.LatMode, sc.ReadSize)
 	env.Res.Nontrivial = true
@@ -263,6 +265,7 @@ func init() {
 		Gen:    genC09,
 		New:    func() Scenario { return &NCSession{} },
 		Run:    runC09,
+		Expand: expandNCCuts(400),
 		Shrink: shrinkNC,
 	})
 }
